@@ -22,6 +22,7 @@ static std::vector<z_var> &table() {
       case VA: case VA2: case VS: t.push_back(mk(i, crab::ARR_INT_TYPE, 0)); break;
       case VR1: case VR2: t.push_back(mk(i, crab::REG_INT_TYPE, 32)); break;
       case VRR: t.push_back(mk(i, crab::REG_REF_TYPE, 0)); break;
+      case VRB: t.push_back(mk(i, crab::REG_BOOL_TYPE, 1)); break;
       case VP: case VQ: case VR: t.push_back(mk(i, crab::REF_TYPE, 32)); break;
       default: t.push_back(mk(i, crab::INT_TYPE, 32)); break;
       }
